@@ -6,7 +6,8 @@
 //!                        | `httpl` (as http, with an explicit Content-Length header)
 //!                        | `httpc` (as http, the body delivered as 1..3 data frames of unknown total length -- what a
 //!                          `Transfer-Encoding: chunked` / HTTP/2 request without Content-Length looks like to the service)
-//!              batchcfg  = `d` (Disabled) | `u` (Unlimited) | `l<n>` (Limit(n))
+//!              batchcfg  = `d` (Disabled) | `u` (Unlimited) | `l<n>` (Limit(n)), optionally followed by `+r<N>`
+//!                          (max_response_body_size = N; default 10 MiB)
 //! output line: `s=<http-status|-> f=<frame-hex,...|-> l=<handler-log|-> a=<1|0>`
 //!              f = HTTP: the response body (one frame; `-` when empty); WS: EVERY frame the server sent on the
 //!                  connection from the moment the message was written until the connection was quiet again
@@ -201,7 +202,13 @@ struct Engine {
 	barrier: AtomicU64,
 }
 
+/// `<batchcfg>[+r<N>]`: optional response-size limit (max_response_body_size = N)
+fn resp_limit(s: &str) -> Option<u32> {
+	s.split_once("+r").and_then(|(_, n)| n.parse::<u32>().ok())
+}
+
 fn batch_cfg(s: &str) -> Option<BatchRequestConfig> {
+	let s = s.split_once("+r").map(|(a, _)| a).unwrap_or(s);
 	match s {
 		"d" => Some(BatchRequestConfig::Disabled),
 		"u" => Some(BatchRequestConfig::Unlimited),
@@ -209,8 +216,12 @@ fn batch_cfg(s: &str) -> Option<BatchRequestConfig> {
 	}
 }
 
-fn server_cfg(b: BatchRequestConfig) -> ServerConfig {
-	ServerConfig::builder().set_batch_request_config(b).set_id_provider(ConstId).build()
+fn server_cfg(b: BatchRequestConfig, rs: Option<u32>) -> ServerConfig {
+	let c = ServerConfig::builder().set_batch_request_config(b).set_id_provider(ConstId);
+	match rs {
+		Some(n) => c.max_response_body_size(n).build(),
+		None => c.build(),
+	}
 }
 
 fn is_barrier(frame: &[u8]) -> bool {
@@ -254,7 +265,7 @@ async fn connect(addr: std::net::SocketAddr) -> Option<WsConn> {
 impl Engine {
 	async fn server(&mut self, key: &str) -> Option<&mut Srv> {
 		if !self.servers.contains_key(key) {
-			let cfg = server_cfg(batch_cfg(key)?);
+			let cfg = server_cfg(batch_cfg(key)?, resp_limit(key));
 			let server = timeout(WAIT, Server::builder().set_config(cfg.clone()).build("127.0.0.1:0")).await.ok()?.ok()?;
 			let addr = server.local_addr().ok()?;
 			let handle = server.start(self.methods.clone());
@@ -267,7 +278,7 @@ impl Engine {
 		use http_body_util::{StreamBody, combinators::BoxBody};
 		use std::convert::Infallible;
 		let Some(b) = batch_cfg(key) else { return "?bad-cfg".into() };
-		let mut svc = Server::builder().set_config(server_cfg(b)).to_service_builder().build(self.methods.clone(), self.stop.clone());
+		let mut svc = Server::builder().set_config(server_cfg(b, resp_limit(key))).to_service_builder().build(self.methods.clone(), self.stop.clone());
 		let len = msg.len();
 		let body: BoxBody<Bytes, Infallible> = if framing == "httpc" {
 			// cut points derived from the message itself (deterministic): after 1/3 and 2/3 of the bytes
